@@ -12,7 +12,10 @@ import json
 import random
 
 from ..core import Ctx
-from ..lattice import ORIGIN0
+from ..lattice import ORIGIN0 as _O0
+
+# seven origin-0 embeddings plus two magnitudes: 1e-6 and 1e9 units (absolute tolerances and slacks show there)
+ORIGIN0 = _O0 + ["micro", "huge"]
 from .. import tlc
 from .c01 import to_case, decide
 from .die_common import random_description
@@ -60,6 +63,16 @@ def near_limit_cases(rng: random.Random) -> list[dict]:
                     w, h = (32 * a, 32 * b) if rng.random() < 0.5 else (32 * b, 32 * a)
                     out.append({"mregs": [], "mdw": w, "mdh": h, "embs": list(ORIGIN0),
                                 "ops": [{"op": "split", "p": p, "q": q, "n": n, "check_model": 1}]})
+    # initial grids on empty dies, many per worker process: the first call in a process is not special
+    for _ in range(64):
+        a, b = rng.randint(2, 9), rng.randint(2, 9)
+        nr, nc = rng.choice([1, 2, 4, 8]), rng.choice([1, 2, 4, 8])
+        if nr + nc == 2:
+            nc = 2
+        ops = [{"op": "grid", "nr": nr, "nc": nc}]
+        if rng.random() < 0.5:
+            ops.append({"op": "split", "p": 3, "q": 2, "n": nr * nc + rng.randint(1, 4), "check_model": 0})
+        out.append({"mregs": [], "mdw": 32 * a, "mdh": 32 * b, "embs": list(ORIGIN0), "ops": ops})
     return out
 
 
@@ -104,7 +117,7 @@ def run(ctx: Ctx) -> int:
     nl = near_limit_cases(rng)
     if tier == "quick":
         rng.shuffle(nl)
-        nl = nl[:150]
+        nl = nl[:220]
     cases += nl
     ctx.extra["descriptions"] = len(gen) + nrand
     ctx.extra["near_limit_and_empty_dies"] = len(nl)
